@@ -54,6 +54,25 @@ def classify_diff(prj, spec, fs, actual, new):
     return "stale"
 
 
+def missing_rendering(prj, spec, fs, actual, new):
+    """True when some matched occurrence's rendering of the new version is absent from its line of the actual file"""
+    try:
+        lines = actual.decode("utf-8").splitlines()
+    except UnicodeDecodeError:
+        return False
+    if len(lines) != len([1 for segs, term in fs.lines]) and len(lines) + 1 != len(fs.lines):
+        return False          # the line structure itself is gone: the other check's subject
+    for (segs, _), line in zip(fs.lines, lines):
+        for s in segs:
+            if s.kind == "occ":
+                try:
+                    if fs._text(prj.render, s.value, new) not in line:
+                        return True
+                except Exception:
+                    return False
+    return False
+
+
 def impl_compile(prj, spec, raw):
     try:
         if spec["legacy"]:
@@ -171,6 +190,8 @@ def run_update_projects(rep, tier, seed, focus, model_ok=True, effort=1, legacy_
                 kind = classify_diff(prj, spec, fs, got, new) if fs is not None and got is not None else "outside"
                 if path == prj.fmt:
                     kind = "stale" if b"current_version" in (got or b"") else "outside"
+                if kind == "outside" and focus == "stale" and fs is not None and got is not None and missing_rendering(prj, spec, fs, got, new):
+                    kind = "stale"      # whatever else happened to the bytes, an occurrence does not show the new version on its line
                 if kind == focus:
                     what = ("an occurrence was left stale / not rendered as the new version" if kind == "stale"
                             else "bytes outside the matched spans changed")
